@@ -229,10 +229,34 @@ def run(ctx):
         raise CannotDecide('Retry::call coroutine body: %d' % len(rbodies))
     b = rbodies[0]
     ranges = [(i, j, s) for i, j, s in b.aggregates('std::ops::RangeFrom')]
-    ok = len(ranges) == 1 and const_int(P.operand(b, ranges[0][2]['rv']['ops'][0])) == 1
-    R.ob('C20.retry', ('Retry::call', 'attempts numbered from 1'), ok, 'the attempt counter is a RangeFrom starting at the constant 1',
+    manual = None
+    if not ranges:
+        # alternative idiom: `let mut i = 1; loop { ...; i += 1 }` — a local initialised with the constant 1 outside the loop and
+        # incremented by the constant 1 on the retry edge
+        for l in range(len(b.locals)):
+            defs = [d for d in P.defs(b).get(l, []) if d[0] == 'stmt' and not d[3]]
+            if b.local_ty(l) not in ('u32', 'u64', 'usize', 'i32') or len(defs) != 2:
+                continue
+            inits = [d for d in defs if const_int(P.operand(b, b.blocks[d[1]]['stmts'][d[2]]['rv']['op'])) == 1] if all(b.blocks[d[1]]['stmts'][d[2]]['rv']['k'] in ('use', 'bin') for d in defs) else []
+            inits = []
+            incs = []
+            for d in defs:
+                rv = b.blocks[d[1]]['stmts'][d[2]]['rv']
+                if rv['k'] == 'use' and rv['op']['k'] == 'const' and const_int(P.operand(b, rv['op'])) == 1 and not cfg.on_cycle(b, d[1]):
+                    inits.append(d)
+                elif rv['k'] == 'use' and rv['op']['k'] in ('move', 'copy'):
+                    # i = move (tmp.0) where tmp = AddWithOverflow(i, 1)
+                    src = P.operand(b, rv['op'], at=d[1])
+                    if src[0] == 'field' and src[1][0] == 'bin' and src[1][1].startswith('Add') and const_int(src[1][3]) == 1 and cfg.on_cycle(b, d[1]):
+                        incs.append(d)
+            if len(inits) == 1 and len(incs) == 1:
+                manual = (l, inits[0], incs[0])
+    ok = (len(ranges) == 1 and const_int(P.operand(b, ranges[0][2]['rv']['ops'][0])) == 1) or manual is not None
+    R.ob('C20.retry', ('Retry::call', 'attempts numbered from 1'), ok, 'the attempt counter starts at the constant 1 (a RangeFrom, or a local incremented by 1 per retry)',
          [b.loc(s) for _, _, s in ranges] or [b.loc(b.d)])
     nexts = [(bb, t) for bb, t in b.calls() if callee_is(t, 'Iterator::next') and 'RangeFrom' in (t.get('self_ty') or '')]
+    if manual is not None:
+        return _retry_manual(ctx, b, manual)
     inner = [(bb, t) for bb, t in b.calls() if callee_is(t, 'client::stub::Stub::call')]
     policy = [(bb, t) for bb, t in b.calls() if callee_is(t, 'Fn::call', 'FnMut::call_mut', 'FnOnce::call_once') and not b.blocks[bb]['term'].get('expn')]
     R.ob('C20.retry', ('Retry::call', 'one counter advance, one inner call, one policy call per iteration'),
@@ -296,3 +320,49 @@ def run(ctx):
              'no path from an attempt\'s completion to the return bypasses the policy (the stub never stops retrying on its own)', [b.loc(pt)])
         R.ob('C20.retry', ('Retry::call', 'retry iff the policy says so'), ok,
              'the loop returns on the policy\'s false edge and re-issues the request on its true edge', [b.loc(pt)])
+
+
+def _retry_manual(ctx, b, manual):
+    """retry loop written with a manual counter: same clauses, the counter read replaces the RangeFrom item"""
+    F, P, R = ctx.F, ctx.P, ctx.run
+    from engine.asyncs import await_of_call
+    l, init, inc = manual
+    inner = [(bb, t) for bb, t in b.calls() if callee_is(t, 'client::stub::Stub::call')]
+    policy = [(bb, t) for bb, t in b.calls() if callee_is(t, 'Fn::call', 'FnMut::call_mut', 'FnOnce::call_once') and not b.blocks[bb]['term'].get('expn')]
+    R.ob('C20.retry', ('Retry::call', 'one counter advance, one inner call, one policy call per iteration'), len(inner) == 1 and len(policy) == 1,
+         'the loop body issues one attempt, asks the policy once and advances the counter once on the retry edge', [b.loc(t) for _, t in inner + policy])
+    if len(inner) != 1 or len(policy) != 1:
+        return
+    (ib, it), (pb, pt) = inner[0], policy[0]
+    R.ob('C20.retry', ('Retry::call', 'order next -> attempt -> policy'), cfg.dominates(b, ib, pb) and cfg.on_cycle(b, ib) and cfg.dominates(b, pb, inc[1]),
+         'each iteration: attempt, then policy; the counter is advanced only after the policy asked for a retry', [b.loc(it), b.loc(pt)])
+    a = it['args']
+    ctx_roots = P.root(P.operand(b, a[1], at=ib))
+    ctx_ok = bool(ctx_roots) and all(r[0] == 'param' and 'Context' in F.fns[r[1]].local_ty(r[2]) for r, p in ctx_roots)
+    req_roots = P.root(P.operand(b, a[2], at=ib), stop_tags=('box',))
+    req_ok = bool(req_roots) and all(r[0] == 'call' and callee_is(P.call_term(r), 'Arc::new') and ('t', 'clone') in p and not cfg.on_cycle(b, r[2]) for r, p in req_roots)
+    R.ob('C20.retry', ('Retry::call', 'attempt re-sends the identical request'), ctx_ok and req_ok,
+         'each attempt calls the inner stub with the caller\'s context and Arc::clone of the one request wrapped once before the loop', [b.loc(it)])
+    targ = P.operand(b, pt['args'][1], at=pb)
+    res_roots = P.root(P._field(targ, 0, 0))
+    res_ok = bool(res_roots) and all(r == ('call', b.id, ib) and ('t', 'await') in p for r, p in res_roots)
+    from engine.asyncs import base_local
+    tup = [s for i, j, s in b.stmts() if s['rv']['k'] == 'agg' and s['rv']['adt'] == 'tuple' and s['pl']['l'] == pt['args'][1]['pl']['l']]
+    i_ok = bool(tup) and base_local(b, P, tup[0]['rv']['ops'][1]) == l
+    R.ob('C20.retry', ('Retry::call', 'policy sees (&result, attempt)'), res_ok and i_ok, 'the policy receives the awaited result of this attempt and the current counter value', [b.loc(pt)])
+    ret_roots = P.root(P._local_whole(b, 0))
+    ret_ok = bool(ret_roots) and all(r == ('call', b.id, ib) and ('t', 'await') in p for r, p in ret_roots)
+    R.ob('C20.retry', ('Retry::call', 'returns the last result unchanged'), ret_ok, 'the value returned is the awaited result of the last attempt, unmodified', [b.loc(b.d)])
+    aw = await_of_call(P, b, ib)
+    ok2 = aw is not None and aw['ready_bb'] is not None and cfg.all_paths_pass(b, aw['ready_bb'], cfg.exits(b), {pb})
+    R.ob('C20.retry', ('Retry::call', 'every result is shown to the policy before returning'), ok2, 'no path from an attempt\'s completion to the return bypasses the policy', [b.loc(pt)])
+    sw = b.blocks[pb]['term']['target']
+    swt = b.blocks[sw]['term']
+    ok = swt['k'] == 'switch'
+    if ok:
+        false_t = dict((v, x) for v, x in swt['targets']).get(0)
+        true_t = swt['otherwise']
+        rets = cfg.exits(b)
+        ok = false_t is not None and bool(set(rets) & cfg.reachable(b, false_t, avoid={ib})) and not (set(rets) & cfg.reachable(b, true_t, avoid={ib})) \
+            and cfg.all_paths_pass(b, true_t, {ib}, {inc[1]})
+    R.ob('C20.retry', ('Retry::call', 'retry iff the policy says so'), ok, 'the loop returns on the policy\'s false edge and, on its true edge, advances the counter and re-issues the request', [b.loc(pt)])
